@@ -173,7 +173,7 @@ def cli_args(input_file, output_file, fmt, mapping, copier_header, defines, dump
         argv.append("--copier-header")
     if dump_symbols:
         argv.append("--dump-symbols")
+    argv.append(input_file)  # before -D: the option takes one or more values and would swallow the file name
     if defines:
         argv += ["-D"] + list(defines)
-    argv.append(input_file)
     sys.argv = argv
